@@ -135,11 +135,70 @@ func (l *mapLoop) sanitized(t ssa.Value) (bool, ssa.Instruction, int) {
 	return sanitizedFrom(l.fn, core.Point{B: l.exit, Idx: 0}, func(b *ssa.BasicBlock) bool { return l.body[b] || b == l.header }, t)
 }
 
+var sortsParamFirst = map[*ssa.Function]map[int]int{}
+
 // sanitizedFrom: on every path from start, container t is sorted before anything else reads it.
 func sanitizedFrom(fn *ssa.Function, start core.Point, skip func(*ssa.BasicBlock) bool, t ssa.Value) (bool, ssa.Instruction, int) {
 	isSortOfT := func(in ssa.Instruction) bool {
-		arg, ok := isSortCall(in)
-		return ok && sameContainer(arg, t)
+		if arg, ok := isSortCall(in); ok && sameContainer(arg, t) {
+			return true
+		}
+		// a helper that receives the container and sorts that parameter (in place) before reading it otherwise
+		call, ok := in.(ssa.CallInstruction)
+		if !ok {
+			return false
+		}
+		g := core.StaticCallee(call)
+		if g == nil || g == fn || len(g.Blocks) == 0 || core.PkgOf(g) != core.PkgOf(fn) {
+			return false
+		}
+		for ai, a := range call.Common().Args {
+			if ai >= len(g.Params) || !sameContainer(a, t) {
+				continue
+			}
+			if _, isSlice := g.Params[ai].Type().Underlying().(*types.Slice); !isSlice {
+				continue
+			}
+			if sortsParamFirst[g] == nil {
+				sortsParamFirst[g] = map[int]int{}
+			}
+			switch sortsParamFirst[g][ai] {
+			case 1:
+				return true
+			case 2:
+				continue
+			}
+			sortsParamFirst[g][ai] = 2 // recursion guard
+			var cont ssa.Value = g.Params[ai]
+			start := core.EntryOf(g)
+			// a parameter captured by a closure (the less function of sort.Slice) lives in a local slot
+			if refs := g.Params[ai].Referrers(); refs != nil {
+				var spill *ssa.Store
+				other := false
+				for _, ref := range *refs {
+					switch x := ref.(type) {
+					case *ssa.DebugRef:
+					case *ssa.Store:
+						if _, isAlloc := x.Addr.(*ssa.Alloc); isAlloc && x.Val == ssa.Value(g.Params[ai]) && spill == nil {
+							spill = x
+						} else {
+							other = true
+						}
+					default:
+						other = true
+					}
+				}
+				if spill != nil && !other {
+					cont, start = spill.Addr, core.After(spill)
+				}
+			}
+			okp, _, ns := sanitizedFrom(g, start, nil, cont)
+			if okp && ns > 0 {
+				sortsParamFirst[g][ai] = 1
+				return true
+			}
+		}
+		return false
 	}
 	nSort := len(sites(fn, isSortOfT))
 	rs := core.Reach([]core.Point{start}, isSortOfT, nil)
